@@ -4,7 +4,7 @@
 From Coq Require Import Sorting.Sorted Sorting.Permutation.
 From Sdns Require C02.Model C02.Proofs_Gen.
 From Sdns Require Import Common.Base Common.GoList Gen.C14 C14.Model
-  C14.Proofs_rsa C14.Proofs_b64 C14.Proofs_keytag C14.Proofs_rsamd5 C14.Proofs_canon C14.Proofs_verify C14.Proofs_offset C14.Proofs_walk C14.Proofs_loops C14.Proofs_c02.
+  C14.Proofs_rsa C14.Proofs_b64 C14.Proofs_keytag C14.Proofs_rsamd5 C14.Proofs_canon C14.Proofs_verify C14.Proofs_offset C14.Proofs_walk C14.Proofs_loops C14.Proofs_c02 C14.Proofs_synth.
 Open Scope N_scope.
 
 (* (1) Key tag.  For every DNSKEY of every algorithm but RSAMD5 and every key
@@ -309,3 +309,28 @@ Theorem compare_suffix_counts_shared_labels : forall a b,
   N.of_nat (C02.Model.lcp (C02.Model.canon a) (C02.Model.canon b)).
 Proof. exact compare_suffix_plain_names. Qed.
 Print Assumptions compare_suffix_counts_shared_labels.
+
+(* isSynthesizedCNAME AS THE CODE HAS IT: the translated function (with dns.CountLabel, dnsname.CompareSuffix and
+   dns.PrevLabel translated from their sources, dns.Fqdn / strings.EqualFold in their ASCII readings) terminates within
+   the stated budget on escape-free names and returns exactly "some DNAME of the list passes synth_one" ... *)
+Theorem translated_is_synthesized_cname_is_total_and_exact : forall fuel o t ds,
+  C02.Proofs_Gen.plain_name o ->
+  Forall (fun d => C02.Proofs_Gen.plain_name (fst d) /\
+                   (length (C02.Proofs_Gen.present (fst d)) + length (C02.Proofs_Gen.present o) < fuel)%nat) ds ->
+  (length (C02.Proofs_Gen.present o) < fuel)%nat ->
+  go_isSynthesizedCNAME fuel (cname_rec (C02.Proofs_Gen.present o) t) (map dn_rec ds) = Some (existsb (synth_one o t) ds).
+Proof. exact (fun fuel o t ds Ho => gen_is_synthesized_cname fuel o t Ho ds). Qed.
+Print Assumptions translated_is_synthesized_cname_is_total_and_exact.
+
+(* ... so the model's is_synthesized_cname — that translation, which the walk model runs — accepts exactly the RFC 6672 3.3
+   substitution: some DNAME owner is a PROPER ancestor of the CNAME owner (all its labels shared from the root, fewer labels),
+   and the owner's labels above it followed by the DNAME target spell the CNAME target (both rooted, ASCII case-insensitive).
+   Escape-free names; names with escapes are tied by CaseSynth (code = translation = hand specification). *)
+Theorem synthesised_cname_translation_is_the_dname_substitution : forall o t ds,
+  C02.Proofs_Gen.plain_name o -> Forall (fun d => C02.Proofs_Gen.plain_name (fst d)) ds ->
+  (is_synthesized_cname (C02.Proofs_Gen.present o) t (map present_d ds) = true <->
+   exists d, In d ds /\ (0 < length (fst d) < length o)%nat /\
+     C02.Model.lcp (C02.Model.canon (fst d)) (C02.Model.canon o) = length (fst d) /\
+     go_equal_fold_ascii (go_fqdn_ascii (C02.Proofs_Gen.pres (firstn (length o - length (fst d)) o) ++ snd d)) (go_fqdn_ascii t) = true).
+Proof. exact model_synthesized_cname_plain_iff. Qed.
+Print Assumptions synthesised_cname_translation_is_the_dname_substitution.
